@@ -410,6 +410,32 @@ pub fn c01(c: &mut Ctx) {
         }
         run_int(c);
     }
+    // (a') deterministic linear grids over each function's natural domain: saturation thresholds and
+    //      range switches are narrow bands in *linear* scale that log-uniform sampling never meets
+    let npts: i64 = if c.tier == 0 { 1 << 15 } else { 1 << 20 };
+    for (gi, half_width) in [1.0f64, 4.0, 40.0, 720.0].into_iter().enumerate() {
+        let stepw = 2.0 * half_width / npts as f64;
+        for k in 0..npts {
+            if (k as u64 + gi as u64) % c.nshards != c.shard {
+                continue;
+            }
+            let jitter = (c.rng.next() >> 11) as f64 * pow2(-53);
+            let hi = -half_width + (k as f64 + jitter) * stepw;
+            let (h, l, _) = tf_with_hi(&mut c.rng, hi);
+            let a = (h, l);
+            if !in_range(a) {
+                continue;
+            }
+            for i in 8..N_UN {
+                // asin/acos/atanh only make sense on the unit grid, trig on all, exp family on all
+                if half_width > 1.0 && (i == 23 || i == 24 || i == 31) {
+                    continue;
+                }
+                run_un(c, i, a);
+            }
+            c.count("linear_grid_points");
+        }
+    }
     // (b) the program VM
     let progs = c.budget(80_000, 4_000_000);
     let mut max_depth = 0u64;
